@@ -229,7 +229,7 @@ var props = map[string]*propDef{
 		}, baseAssumptions...),
 		Harnesses: []harnessDef{
 			{Name: "proto.VerifC08GenLeaves", Must: mustC08, Quick: map[string]int{"maxrows": 1, "maskbytes": 5, "maxcutback": 0}, Thorough: map[string]int{"maxrows": 2}},
-			{Name: "proto.VerifC08PlainLeaves", Must: mustC08, Quick: map[string]int{"maskbytes": 5, "maxcutback": 0, "maxrows": 1, "minstr": 1, "maxstr": 1, "minprec": 3, "maxprec": 3, "minscale": 3, "maxscale": 3}, Thorough: map[string]int{"maxrows": 2, "maxstr": 1}},
+			{Name: "proto.VerifC08PlainLeaves", Must: mustC08, Quick: map[string]int{"maskbytes": 5, "maxcutback": 0, "maxrows": 1, "minstr": 2, "maxstr": 2, "minprec": 3, "maxprec": 3, "minscale": 3, "maxscale": 3}, Thorough: map[string]int{"maxrows": 2, "maxstr": 1}},
 			{Name: "proto.VerifC08Composites", Must: mustC08, Quick: map[string]int{"maskbytes": 5, "maxcutback": 0, "maxrows": 1, "minstr": 1, "maxstr": 1, "mininner": 1, "maxinner": 1}, Thorough: map[string]int{"maxrows": 2, "maxstr": 1, "maxinner": 1}},
 			{Name: "compress.VerifC08Frames", Quick: map[string]int{"maxlen": 2}, Thorough: map[string]int{"maxlen": 3}},
 			{Name: "ch.VerifC08ClientIdle"},
